@@ -28,7 +28,7 @@ from saml2_tophat.extension import mdattr
 from saml2_tophat.server import Server
 
 CLAIM = {
-    "text": "Coq theorems (Props/C07.v) over the model of _filter_values/_match/filter_on_attributes/filter_attribute_value_assertions/post_entity_categories/Policy.compile,get,filter,restrict/Assertion.apply_policy/Server.setup_assertion/_authn_response/create_attribute_response, for EVERY identity, compiled policy, SP declaration, regex matcher and attribute map (induction over the lists). C07_release_subset: whatever apply_policy leaves in the assertion has identity names and identity values only; when attribute_restrictions apply every released name (lower-cased) is one of their keys and every value matches one of its patterns; when the entity-category rules yield an allowance every released name is in it; otherwise, when required/optional declarations exist, every released name and value is covered by a declaration. C07_every_outcome (FULL, incl. the MissingValue/best_effort path): every outcome of create_authn_response is an exception or an assertion satisfying all four clauses; C07_setup_assertion_every_outcome the same for both values of best_effort (False: error response); C07_best_effort_is_policy_filtered / C07_authn_response_always_answers: on the MissingValue path the assertion is the identity narrowed by Policy.filter run with the SP's demands as wishes, never an error response, MissingValue never escapes; C07_attribute_response_every_outcome for the attribute authority with an aa policy. These are proved for the model of Server.setup_assertion AS REPAIRED by proposed_fix/C07-1.diff (the check expects /repo + that diff); the code before the repair is kept as setup_assertion_before_fix with C07_every_outcome_before_fix_refuted (witness: secret released despite attribute_restrictions, replayed on the implementation) and C07_before_fix_characterised. Entity-category clause, non-circular: C07_category_allowance_exact (post_entity_categories lets through exactly what a row entitles the SP to) and C07_category_allowance_documented / C07_every_outcome_documented_categories (for a policy compiled over the REGENERATED Gen/EntityCat.v every released name is entitled to by a row of the hand-written documented table of a module configured for this SP); C07_entity_category_tables: regenerated tables = documented ones (as sets). ONLY TESTED (not proved): that the model agrees with the Python - function-level and end-to-end correspondence on long-lived Policy/Server objects with request sequences for different SPs, plus an implementation-level release oracle.",
+    "text": "Coq theorems (Props/C07.v) over the model of _filter_values/_match/filter_on_attributes/filter_attribute_value_assertions/post_entity_categories/Policy.compile,get,filter,restrict/Assertion.apply_policy/Server.setup_assertion/_authn_response/create_attribute_response, for EVERY identity, compiled policy, SP declaration, regex matcher and attribute map (induction over the lists). C07_release_subset: whatever apply_policy leaves in the assertion has identity names and identity values only; when attribute_restrictions apply every released name (lower-cased) is one of their keys and every value matches one of its patterns; when the entity-category rules yield an allowance every released name is in it; otherwise, when required/optional declarations exist, every released name and value is covered by a declaration. C07_every_outcome (FULL, incl. the MissingValue/best_effort path): every outcome of create_authn_response is an exception or an assertion satisfying all four clauses; C07_setup_assertion_every_outcome the same for both values of best_effort (False: error response); C07_best_effort_is_policy_filtered / C07_authn_response_always_answers: on the MissingValue path the assertion is the identity narrowed by Policy.filter run with the SP's demands as wishes, never an error response, MissingValue never escapes; C07_attribute_response_every_outcome for the attribute authority with an aa policy. These are proved for the model of Server.setup_assertion AS REPAIRED by proposed_fix/C07-1.diff (the check expects /repo + that diff); the code before the repair is kept as setup_assertion_before_fix with C07_every_outcome_before_fix_refuted (witness: secret released despite attribute_restrictions, replayed on the implementation) and C07_before_fix_characterised. Entity-category clause, non-circular: C07_category_allowance_exact (post_entity_categories lets through exactly what a row entitles the SP to) and C07_category_allowance_documented / C07_every_outcome_documented_categories (for a policy compiled over the REGENERATED Gen/EntityCat.v every released name is entitled to by a row of the hand-written documented table of a module configured for this SP); C07_entity_category_tables: regenerated tables = documented ones (as sets). Restriction LISTS of regular expressions (Model/PolicyRx.v): C07_each_expression_on_its_own - IFF - a value of a regex-restricted attribute is released iff it is an identity value and some SINGLE expression of that attribute's list matches it (each expression compiled and matched on its own by the engine argument); C07_restriction_list_pointwise: the release depends on the engine only through the (expression, value) pairs of the attribute's own list, so a flag of one expression or a merged alternation cannot matter; C07_value_matching_no_expression_withheld. Entity categories from raw metadata: C07_categories_only_under_their_name (IFF: the SP's categories are exactly the values listed under the entity-category Name of EntityAttributes, every occurrence), C07_other_entity_attributes_do_not_count, C07_entitlement_from_raw_metadata (values under entity-category-support or any other Name never entitle). ONLY TESTED (not proved): that the model agrees with the Python - function-level and end-to-end correspondence on long-lived Policy/Server objects with request sequences for different SPs, plus an implementation-level release oracle.",
     "note": "Trusted: Coq kernel + vm_compute; hand-written model tied to the code by the correspondence units; Python re and the attribute maps enter the model as per-case truth tables (quantified in the theorems); str.lower modelled for ASCII, generators use only names on which Python agrees; identities are dicts of lists of strings (a bare string value is outside the model); value multiplicity/order is not compared (list(set(..)) and list aliasing in filter_on_attributes make it unspecified); pefim and encrypt paths, name_form without converter (releases nothing), create_attribute_response without an aa policy (applies no policy object: observation, lemma C07_attribute_response_no_policy) are outside the claim.",
     "technique": "machine-checked proof (Coq, induction over identities/policies/declarations; regex matcher and attribute map universally quantified) + regenerated-table obligation + function-level and end-to-end sequence correspondence + implementation-level release oracle",
 }
@@ -47,6 +47,9 @@ RULE = ("worlds = generated (policy, SP metadata set) pairs, each with ONE Serve
         "different SPs; identities with case variants, multi-valued, non-ASCII, empty lists; policy shapes default/per-SP, "
         "attribute_restrictions absent/None/{}/name-only/regex lists, entity_categories incl. ONLY_REQUIRED (edugain CoCo), "
         "fail_on_missing_requested on/off; SP declarations required/optional with and without value constraints, unsatisfiable ones; "
+        "restriction lists of 2-4 expressions with inline flags on the first/a later expression, scoped flags, alternation, anchors, classes, trailing .* and values "
+        "matching one/several/none/only-under-a-leaked-flag/only-by-search, under default and per-SP entries; EntityAttributes with several attribute Names "
+        "(category values under entity-category-support or another Name, any order, category Name twice); "
         "fixed worlds: every documented category row, every pattern x value of the regex pool, 8 policy shapes x 7 SPs x 5 identities on the "
         "missing-requirement path (create_authn_response, setup_assertion with both best_effort values, create_attribute_response). "
         "Non-trivial = the filter removed something, raised, or hit the MissingValue path; distinct by content.")
